@@ -23,6 +23,7 @@ def main():
         i = argv.index("--tier")
         tier = argv[i + 1]
         del argv[i:i + 2]
+    tier0 = tier
     args = [a for a in argv if not a.startswith("--")]
     scratch = "--scratch" in sys.argv
     ids = args or sorted(d for d in os.listdir(os.path.join(V, "seeded")) if os.path.isdir(os.path.join(V, "seeded", d)))
@@ -39,6 +40,9 @@ def main():
         d = os.path.join(V, "seeded", sid)
         meta = json.load(open(os.path.join(d, "meta.json")))
         props = meta["property"] if isinstance(meta["property"], list) else [meta["property"]]
+        tier = tier0
+        if str(meta.get("tier", "")).startswith("thorough"):
+            tier = "thorough"  # changes that only the thorough tier can see (e.g. tables of other platforms)
         if scratch:
             # while other jobs use /repo: apply the change to a scratch worktree and point the check at it
             wt = "/tmp/seedrepo-" + sid
